@@ -40,6 +40,7 @@ type HierarchicalConjunctiveThreshold struct { //nolint:revive // keep the Hiera
 //
 // Validation rules:
 //   - at least one level must be provided
+//   - every level must contain at least one shareholder
 //   - shareholder ID 0 is not allowed
 //   - levels must be disjoint
 //   - thresholds must be strictly increasing
@@ -55,6 +56,9 @@ func NewHierarchicalConjunctiveThresholdAccessStructure(levels ...*ThresholdLeve
 	for _, l := range levels {
 		if l == nil {
 			return nil, ErrIsNil.WithMessage("level cannot be nil")
+		}
+		if len(l.parties) == 0 {
+			return nil, ErrValue.WithMessage("parties must not be empty")
 		}
 		parties := hashset.NewComparable(l.parties...)
 		if parties.Contains(0) {
